@@ -688,6 +688,19 @@ func init() {
 		copy(o.cells, s.bytes())
 		return Slice{arr: o, len: s.Len(), cap: s.Len()}
 	}
+	// errors.Is: only the comparability test of the target's dynamic type goes through
+	// internal/reflectlite; the unwrapping loop (errors.is) is ordinary Go and is executed as it is
+	intrinsics["errors.Is"] = func(e *Exec, caller *frame, args []Value) Value {
+		errv, target := args[0].(Iface), args[1].(Iface)
+		if errv.t == nil || target.t == nil {
+			return errv.t == nil && target.t == nil
+		}
+		pk := e.w.ssaPk["errors"]
+		if pk == nil || pk.Func("is") == nil {
+			unsupported("errors.Is: package errors not built")
+		}
+		return e.call(caller, 0, pk.Func("is"), []Value{errv, target, types.Comparable(target.t)})
+	}
 	intrinsics["errors.New"] = func(e *Exec, _ *frame, args []Value) Value {
 		return e.newErrorString(args[0].(Str))
 	}
